@@ -89,6 +89,7 @@ def consts(cfg, which, tracefile=None):
         for k in ("MaxTicks", "MaxLoss", "MaxDup", "MaxFlight", "MaxInject", "MaxRestart", "MaxRenom", "MaxTime"):
             d[k] = str(m[k])
         d["MaxData"] = str(m.get("MaxData", 0))
+        d["MaxClose"] = str(m.get("MaxClose", 0))
         d["Steps"] = "{" + ", ".join(map(str, m["Steps"])) + "}"
     else:
         t = cfg["tr"]
@@ -96,6 +97,7 @@ def consts(cfg, which, tracefile=None):
             d[k] = "100000"
         d["MaxTime"] = "1000000000"
         d["MaxData"] = "100000"
+        d["MaxClose"] = "1"
         d["Steps"] = "{}"
     for k in ("D", "F", "K", "H"):
         d[k] = str(t[k])
@@ -150,6 +152,7 @@ def gen_mon(workdir, name, cfg, tracefile, predicates):
     d = {"D": str(t["D"]), "F": str(t["F"]), "H": str(t["H"]), "TraceFile": q(tracefile),
          "NatMap": c["NatMap"], "Reach": c["Reach"],
          "LocA": "{" + ", ".join(map(q, cfg["loc"]["A"] + [cfg["nat"][l] for l in cfg["loc"]["A"] if l in cfg["nat"]])) + "}",
+         "LocB": "{" + ", ".join(map(q, cfg["loc"]["B"])) + "}",
          "Lite": c["Lite"], "CheckPrio": c["CheckPrio"], "MaxReq": str(cfg["maxReq"]),
          "Check": "{" + ", ".join(map(q, predicates)) + "}"}
     lines = ["SPECIFICATION Spec", "INVARIANT Report", "POSTCONDITION Done", "CHECK_DEADLOCK FALSE"]
